@@ -696,7 +696,7 @@ class sptensor:
         >>> S.find()
         (array([[0, 1]]), array([[1.]]))
         """
-        return self.subs, self.vals
+        return self.subs.copy(), self.vals.copy()
 
     def to_tensor(self) -> ttb.tensor:
         """Convert to dense tensor.
